@@ -797,3 +797,45 @@ func postHandshakeTail(rng *rand.Rand, hs []item, tls13 bool) (tail []item, desc
 	}
 	return tail, desc + "close"
 }
+
+// helloCase is one in-place edit of an identifier / version field of a plaintext ServerHello or HelloRetryRequest.
+type helloCase struct {
+	item, off, val int
+	name           string
+	frag           []byte
+}
+
+func helloCases(items []item, tls13, tls12sig bool) []helloCase {
+	var out []helloCase
+	for ii, it := range items {
+		if it.Typ != 22 || it.Epoch != 0 || len(it.Frag) < 4 || it.Frag[0] != 2 {
+			continue
+		}
+		_, fields := annotate(it.Frag, tls13, tls12sig)
+		for _, f := range fields {
+			if f.W != 2 || (f.Kind != "id" && f.Kind != "ver") {
+				continue
+			}
+			var vals []int
+			switch {
+			case f.Name == "ServerHello.cipher_suite":
+				vals = []int{0x1301, 0x1302, 0x1303, 0x1304, 0xc02f, 0x002f, 0x00ff, 0}
+			case f.Kind == "ver":
+				vals = []int{0x0304, 0x0303, 0x0302, 0x0301, 0x0300, 0x0305, 0x7f1c, 0}
+			case f.Name == "ServerHello.ext.type":
+				vals = []int{0, 5, 10, 11, 16, 18, 23, 35, 41, 42, 43, 44, 45, 51, 0xff01, 0xffff}
+			default: // groups, selected psk, ...
+				vals = []int{0, 1, 23, 24, 25, 29, 30, 0x0100, 0xffff}
+			}
+			for _, v := range vals {
+				if v == f.Val {
+					continue
+				}
+				frag := append([]byte(nil), it.Frag...)
+				putUint(frag[f.Off:f.Off+2], v)
+				out = append(out, helloCase{ii, f.Off, v, f.Name, frag})
+			}
+		}
+	}
+	return out
+}
